@@ -210,6 +210,26 @@ pub fn dist_fib(nsyms: usize) -> Vec<u8> {
     v
 }
 
+/// compressible noise (64-symbol alphabet, so Huffman coding pays and blocks are not stored) with ONE planted
+/// repetition: `alen` bytes at `pos` repeat the bytes at `pos - d`; `tail` more noise bytes follow. Places a match
+/// of a chosen distance at a chosen absolute position (e.g. straddling the point where the window slides).
+pub fn far_at(pos: usize, d: usize, alen: usize, tail: usize) -> Vec<u8> {
+    let mut g = Lcg(4242 + (pos as u32).wrapping_mul(31) + d as u32);
+    let mut v: Vec<u8> = (0..pos).map(|_| 0x30 + (g.next() >> 7) as u8 % 64).collect();
+    for k in 0..alen {
+        let b = v[pos - d + k];
+        v.push(b);
+    }
+    v.extend((0..tail).map(|_| 0x30 + (g.next() >> 7) as u8 % 64));
+    v
+}
+
+/// 7-bit noise: incompressible by matching, compressible by Huffman coding (8 -> ~7 bits)
+pub fn noise7(seed: u32, n: usize) -> Vec<u8> {
+    let mut g = Lcg(seed);
+    (0..n).map(|_| (g.next() >> 9) as u8 & 0x7f).collect()
+}
+
 /// all strings over the first k symbols of `alphabet` with length <= max_len, shortest first
 pub fn tiny_strings(alphabet: &[u8], max_len: usize) -> Vec<Vec<u8>> {
     let k = alphabet.len();
@@ -269,6 +289,13 @@ pub fn shapes(w: usize, m: usize, rich: bool) -> Vec<Named> {
     }
     for d in [max_dist - 1, max_dist, max_dist + 1, w - 1, w, w + 1] {
         v.push(named(format!("far({d})"), far(d, 40)));
+    }
+    // a match of (nearly) the largest distance whose second occurrence sits where the window slides for the first
+    // time (input position 2w - 262 +- 2), in an input short enough (< 2w) that the slide happens exactly there
+    for d in if rich { vec![max_dist - 1, max_dist, max_dist + 1] } else { vec![max_dist - 1, max_dist] } {
+        for pos in if rich { (2 * w - 266..=2 * w - 259).collect::<Vec<_>>() } else { vec![2 * w - 264, 2 * w - 263, 2 * w - 262] } {
+            v.push(named(format!("far_at({pos},{d})"), far_at(pos, d, 9, 12)));
+        }
     }
     // block-type switches
     let mut mix = rep(0x20, w / 2);
